@@ -390,6 +390,7 @@ def gen_lexstat(rng):
             "history": rng.choice([1, 2]), "ignore": rng.choice(["all", "all", []])}
 
 
+MULTI_SEG = ["oː", "aː", "tʰ", "tʃ", "kʷ", "ɛ̃", "ts", "n̩"]
 SWAP_ROWS = [("German", "w a l d e m a r"), ("English", "w o l d e m o r t"), ("Russian", "v l a d i m i r")]
 
 
@@ -404,13 +405,31 @@ def gen_alignments(rng):
         free = [i for i in range(60, 90) if i not in data]
         for i, (t, w) in zip(rng.sample(free, 3), SWAP_ROWS):
             data[i] = [t, "woldemort", w.replace(" ", ""), w.split(), 20]
+    if rng.random() < 0.5:
+        # a cognate set all of whose words are ONE segment of several code points (long vowel, aspirate, affricate,
+        # nasalised vowel): its alignment has a single column (normalize_alignment's one-cell rows)
+        free = [i for i in range(90, 120) if i not in data]
+        n = rng.choice([1, 2, 2, 3])
+        for i, t in zip(rng.sample(free, n), rng.sample(taxa, min(n, len(taxa)))):
+            seg = rng.choice(MULTI_SEG)
+            data[i] = [t, "water", seg, [seg], 30]
     ignore = rng.choice(["all", [], []])
+    second = None
+    if ignore == [] and rng.random() < 0.4:
+        # a second cognate-id column (one id per concept): add_alignments(ref='scaid') + align(ref='scaid')
+        data[0] = data[0] + ["scaid"]
+        cid = {}
+        for k in data:
+            if k != 0:
+                data[k] = data[k] + [cid.setdefault(data[k][1], len(cid) + 1)]
+        second = "scaid"
     # align(); get_consensus() before the first save: the consensus goes into the <msa> tag and a CONSENSUS line
     # (gaps=True: one segment per column; gaps=False: shorter than the alignment whenever a column is mostly gaps)
     cons = rng.choice([None, "gaps", "nogaps"]) if ignore == [] else None
     return {"type": "alignments", "mode": "valid", "data": data, "prettify": rng.choice([True, False]),
             "analysis": "align", "swap_check": swap, "history": rng.choice([1, 2, 2]),
-            "ignore": ignore, "plant_local": ignore == [] and rng.random() < 0.4, "consensus": cons}
+            "ignore": ignore, "plant_local": ignore == [] and rng.random() < 0.4, "consensus": cons,
+            "second_ref": second}
 
 
 def from_json(c):
@@ -450,47 +469,52 @@ def _analyse(obj, case):
     return [[int(k), [str(obj[k, ref])]] for k in sorted(obj)]
 
 
-def _msa_state(obj, annotations=True):
+def _msa_state(obj, annotations=True, all_refs=False):
     """The alignments per cognate set as the object holds them: rows (id, taxon, aligned and plain segments) and the
     per-set annotations (swaps, local, consensus) when present.  The annotations live in the <msa> blocks only: they
     are compared across save/load only when the blocks are written (ignore=[]); plain output (ignore='all', "output
     only plain tsv") does not carry them by its documented meaning."""
     out = []
-    for key, msa in sorted(obj.msa["cogid"].items()):
-        rows = ["%s|%s|%s|%s" % (i, t, " ".join(a), " ".join(q))
-                for i, t, a, q in zip(msa["ID"], msa["taxa"], msa["alignment"], msa["seqs"])]
-        for ann in ("swaps", "local", "consensus") if annotations else ():
-            val = list(msa.get(ann) or [])
-            if ann == "consensus":
-                # msa2str pads the CONSENSUS line to the width of the alignment and the padding is read back as ''
-                # (theorem C13_msa_consensus_padding_refuted; repair proposed to the lead): the exact comparison is
-                # bit 7 under the guard "one consensus segment per column", here the padding is ignored
-                while val and val[-1] == "":
-                    val.pop()
-            if val:
-                rows.append("%s=%s" % (ann, " ".join(str(tuple(x)) if isinstance(x, (list, tuple)) else str(x)
-                                                     for x in val)))
-        out.append([int(key), rows])
+    for ref in (sorted(obj.msa) if all_refs else ["cogid"]):
+        for key, msa in sorted(obj.msa[ref].items()):
+            rows = ["%s|%s|%s|%s" % (i, t, " ".join(a), " ".join(q))
+                    for i, t, a, q in zip(msa["ID"], msa["taxa"], msa["alignment"], msa["seqs"])]
+            if all_refs:
+                rows.insert(0, "ref=" + ref)
+            for ann in ("swaps", "local", "consensus") if annotations else ():
+                val = list(msa.get(ann) or [])
+                if ann == "consensus":
+                    # msa2str pads the CONSENSUS line to the width of the alignment and the padding is read back as ''
+                    # (theorem C13_msa_consensus_padding_refuted; repair proposed to the lead): the exact comparison is
+                    # bit 7 under the guard "one consensus segment per column", here the padding is ignored
+                    while val and val[-1] == "":
+                        val.pop()
+                if val:
+                    rows.append("%s=%s" % (ann, " ".join(str(tuple(x)) if isinstance(x, (list, tuple)) else str(x)
+                                                         for x in val)))
+            out.append([int(key), rows])
     return out
 
 
-def _msa_struct(obj):
-    """msa['cogid'] of an Alignments object in dictionary order, field by field."""
+def _msa_struct(obj, refs=None):
+    """msa[ref] of an Alignments object for every reference column (dictionary order), field by field."""
     out = []
-    for key, msa in obj.msa["cogid"].items():
-        if not is_int(key):
-            raise Unsupported("msa key %r" % (key,))
-        st = msa.get("stamp", "") or ""
-        stl = st.split("\n")
-        if stl and stl[-1] == "":
-            stl.pop()
-        out.append({"key": int(key), "ids": [int(i) for i in msa["ID"]], "taxa": [str(t) for t in msa["taxa"]],
-                    "alm": [[str(x) for x in r] for r in msa["alignment"]],
-                    "seqs": [[str(x) for x in r] for r in msa["seqs"]],
-                    "local": [int(i) for i in (msa.get("local") or [])],
-                    "swaps": [[int(x) for x in sw] for sw in (msa.get("swaps") or [])],
-                    "cons": [str(x) for x in msa["consensus"]] if "consensus" in msa else None,
-                    "stamp": stl})
+    for ref in (refs if refs is not None else list(obj.msa)):
+        for key, msa in obj.msa[ref].items():
+            if not is_int(key):
+                raise Unsupported("msa key %r" % (key,))
+            st = msa.get("stamp", "") or ""
+            stl = st.split("\n")
+            if stl and stl[-1] == "":
+                stl.pop()
+            out.append({"ref": str(ref), "key": int(key), "ids": [int(i) for i in msa["ID"]],
+                        "taxa": [str(t) for t in msa["taxa"]],
+                        "alm": [[str(x) for x in r] for r in msa["alignment"]],
+                        "seqs": [[str(x) for x in r] for r in msa["seqs"]],
+                        "local": [int(i) for i in (msa.get("local") or [])],
+                        "swaps": [[int(x) for x in sw] for sw in (msa.get("swaps") or [])],
+                        "cons": [str(x) for x in msa["consensus"]] if "consensus" in msa else None,
+                        "stamp": stl})
     return out
 
 
@@ -502,6 +526,10 @@ def ser_run(case):
     for h in range(case.get("history", 1)):
         path = fresh("s")
         step = {"cols": None}
+        if h == 0 and case["type"] == "alignments" and case.get("second_ref"):
+            # alignments for a second cognate-id column: one more section of <msa> blocks in the file
+            obj.add_alignments(ref=case["second_ref"])
+            obj.align(method="progressive", ref=case["second_ref"])
         if h == 0 and case["type"] == "alignments" and case.get("consensus"):
             obj.align(method="progressive", swap_check=bool(case.get("swap_check")))
             obj.get_consensus(gaps=case["consensus"] == "gaps")
@@ -519,6 +547,7 @@ def ser_run(case):
                 for msa in obj.msa["cogid"].values():
                     msa["local"] = list(range(0, len(msa["alignment"][0]), 2))
             step["msa_saved"] = _msa_struct(obj)
+            step["msa_saved_cogid"] = _msa_struct(obj, ["cogid"])
         obj.output("tsv", filename=path, prettify=case["prettify"], ignore=case.get("ignore", "all"))
         step["text"] = file_lines(path + ".tsv")
         try:
@@ -535,9 +564,10 @@ def ser_run(case):
             if case["type"] == "alignments":
                 step["taxa"] = [str(t) for t in obj.cols]
                 step["msa_loaded"] = _msa_struct(loaded)
+                step["msa_loaded_cogid"] = _msa_struct(loaded, ["cogid"])
                 # the alignments per cognate set are derived state: they must survive as they are
-                ann = case.get("ignore", "all") == []
-                step["analysis"] = [_msa_state(obj, ann), _msa_state(loaded, ann)]
+                ann = case.get("ignore", "all") == []      # blocks written: annotations and every reference column
+                step["analysis"] = [_msa_state(obj, ann, ann), _msa_state(loaded, ann, ann)]
             if case.get("analysis"):
                 a = _analyse(obj, case)
                 b = _analyse(loaded, case)
@@ -626,11 +656,12 @@ def ser_render_step(case, step, which="analysis"):
         else:
             an = lit
     msa = "None"
-    if "msa_saved" in step and "msa_loaded" in step and "cogid" in step["cols"]:
+    if "msa_saved_cogid" in step and "msa_loaded_cogid" in step and "cogid" in step["cols"]:
         ci = step["cols"].index("cogid")
         cogids = sorted({c[ci][1] for _, c in step["rows"] if c[ci][0] == "int"})
         msa = "(Some (%s, [%s], %s, %s))" % (SL(step["taxa"]), ";".join(zs(k) for k in cogids),
-                                            state_lit(step["msa_saved"], True), state_lit(step["msa_loaded"], True))
+                                            state_lit(step["msa_saved_cogid"], True),
+                                            state_lit(step["msa_loaded_cogid"], True))
     return L.record("ser_case", [
         L.b(pretty), SL(step["cols"]), rows_lit(step["rows"]), SL(step["stamp"]), SL(pre_lines(step["text"], pretty)),
         SL(step["text"]),
@@ -719,10 +750,17 @@ class _Msa:
     @staticmethod
     def render(case, res):
         pretty = bool(case["case"]["prettify"])
-        saved = "[" + "; ".join("(%s, %s, %s)" % (zs(m["key"]), SL(m["stamp"]), msa_lit(m)) for m in res["msa_saved"]) + "]"
-        seqs = "[" + "; ".join(SLL(m["seqs"]) for m in res["msa_saved"]) + "]"
-        load = "Err" if "msa_loaded" not in res else "(Ok %s)" % state_lit(res["msa_loaded"])
-        return L.record("msa_case", [S("cogid"), saved, seqs, SL(pre_lines(res["text"], pretty)), load])
+        refs = []
+        for m in res["msa_saved"]:
+            if m["ref"] not in refs:
+                refs.append(m["ref"])
+        secs = "[" + "; ".join(
+            "(%s, [%s])" % (S(r), "; ".join("(%s, %s, %s)" % (zs(m["key"]), SL(m["stamp"]), msa_lit(m))
+                                            for m in res["msa_saved"] if m["ref"] == r)) for r in refs) + "]"
+        seqs = "[" + "; ".join(SLL(m["seqs"]) for r in refs for m in res["msa_saved"] if m["ref"] == r) + "]"
+        load = "Err" if "msa_loaded" not in res else "(Ok [%s])" % "; ".join(
+            "(%s, %s, %s)" % (S(m["ref"]), zs(m["key"]), msa_read_lit(m)) for m in res["msa_loaded"])
+        return L.record("msa_case", [secs, seqs, SL(pre_lines(res["text"], pretty)), load])
 
     @staticmethod
     def nontrivial(case, res):
@@ -739,6 +777,12 @@ class _Msa:
             out.append("with_swaps")
         if any(m["local"] for m in res["msa_saved"]):
             out.append("with_local")
+        if any(m["cons"] for m in res["msa_saved"]):
+            out.append("with_consensus")
+        if len({m["ref"] for m in res["msa_saved"]}) > 1:
+            out.append("two_refs")
+        if any(all(len(r) == 1 for r in m["alm"]) for m in res["msa_saved"]):
+            out.append("one_column_set")
         return out
 
 
